@@ -368,6 +368,8 @@ def split(mesh, only_watertight=True, adjacency=None, engine=None, **kwargs) -> 
     components = connected_components(
         edges=adjacency, nodes=np.arange(len(mesh.faces)), min_len=min_len, engine=engine
     )
+    # keep the faces of every component in their original relative order
+    components = [np.sort(c) for c in components]
     meshes = mesh.submesh(components, only_watertight=only_watertight, **kwargs)
     return meshes
 
